@@ -44,6 +44,132 @@ func contextFields(t types.Type) []*types.Var {
 
 // c05PoolTypestate: every pooled object that holds a context is initialised
 // with the caller's context before any other use and returned on every exit.
+// poolAcquireWrapper: call is `W(args..)` where W is a repository function that
+// takes an object from a pool, binds the object's context field(s) to one of
+// its own parameters on every path, and returns the object. Returns the
+// pool's text, the index of that parameter and the wrapper's declaration.
+func poolAcquireWrapper(c *Ctx, info *types.Info, call *ast.CallExpr) (pool string, ctxArg int, w *FuncInfo) {
+	f := calleeFunc(info, call)
+	if f == nil || !c.IsRarePkg(f.Pkg()) {
+		return "", -1, nil
+	}
+	fi := funcDeclOf(c, f)
+	if fi == nil {
+		return "", -1, nil
+	}
+	return poolAcquireWrapperDecl(c, fi)
+}
+
+// poolAcquireWrapperDecl decides whether fi itself is such a wrapper.
+func poolAcquireWrapperDecl(c *Ctx, fi *FuncInfo) (pool string, ctxArg int, w *FuncInfo) {
+	if fi == nil || fi.Decl.Body == nil || fi.Decl.Type.Results == nil || len(fi.Decl.Type.Results.List) != 1 {
+		return "", -1, nil
+	}
+	winfo := fi.Pkg.TypesInfo
+	var v types.Object
+	var getPos token.Pos
+	for _, st := range fi.Decl.Body.List {
+		as, ok := st.(*ast.AssignStmt)
+		if !ok || len(as.Lhs) != 1 || len(as.Rhs) != 1 {
+			continue
+		}
+		if ce, ok := ast.Unparen(as.Rhs[0]).(*ast.CallExpr); ok && isPoolCall(winfo, ce, "Get") && v == nil {
+			v = identObj(winfo, as.Lhs[0])
+			getPos = as.Pos()
+			if se, ok := ce.Fun.(*ast.SelectorExpr); ok {
+				pool = exprStr(se.X)
+			}
+		}
+	}
+	if v == nil {
+		return "", -1, nil
+	}
+	cfs := contextFields(v.Type())
+	if len(cfs) == 0 {
+		return "", -1, nil
+	}
+	// parameters of context type
+	var params []types.Object
+	if fi.Decl.Type.Params != nil {
+		for _, fl := range fi.Decl.Type.Params.List {
+			for _, id := range fl.Names {
+				params = append(params, winfo.Defs[id])
+			}
+		}
+	}
+	ctxArg = -1
+	fg := NewFGraph(fi.Decl.Body, winfo)
+	var initNodes []int
+	for _, nd := range fg.Nodes {
+		as, ok := nd.N.(*ast.AssignStmt)
+		if !ok || len(as.Lhs) != 1 || len(as.Rhs) != 1 {
+			continue
+		}
+		lhs := ast.Unparen(as.Lhs[0])
+		bind := func(val ast.Expr) {
+			for i, p := range params {
+				if p != nil && identObj(winfo, val) == p && isKeyBuilderContext(p.Type()) {
+					ctxArg = i
+					initNodes = append(initNodes, nd.ID)
+				}
+			}
+		}
+		if st, ok := lhs.(*ast.StarExpr); ok && identObj(winfo, st.X) == v {
+			if cl, ok := ast.Unparen(as.Rhs[0]).(*ast.CompositeLit); ok {
+				for _, el := range cl.Elts {
+					if kv, ok := el.(*ast.KeyValueExpr); ok {
+						if kid, ok := kv.Key.(*ast.Ident); ok {
+							for _, cf := range cfs {
+								if winfo.Uses[kid] == cf {
+									bind(kv.Value)
+								}
+							}
+						}
+					}
+				}
+			}
+		}
+		if se, ok := lhs.(*ast.SelectorExpr); ok && identObj(winfo, se.X) == v {
+			fv := fieldVar(winfo, se)
+			for _, cf := range cfs {
+				if fv == cf {
+					bind(as.Rhs[0])
+				}
+			}
+		}
+	}
+	if ctxArg < 0 {
+		return "", -1, nil
+	}
+	// every return returns v and is preceded by the binding on every path
+	okAll := true
+	getNode := fg.NodeOf(getPos)
+	isInit := func(nd *FNode) bool {
+		for _, id := range initNodes {
+			if id == nd.ID {
+				return true
+			}
+		}
+		return false
+	}
+	for _, nd := range fg.Nodes {
+		rs, ok := nd.N.(*ast.ReturnStmt)
+		if !ok {
+			continue
+		}
+		if len(rs.Results) != 1 || identObj(winfo, rs.Results[0]) != v {
+			okAll = false
+		}
+		if fg.Reaches(getNode, nd.ID, isInit) {
+			okAll = false
+		}
+	}
+	if !okAll {
+		return "", -1, nil
+	}
+	return pool, ctxArg, fi
+}
+
 func c05PoolTypestate(c *Ctx, r *Report, rulePrefix string) {
 	rule := rulePrefix + "/pool-init"
 	rule2 := rulePrefix + "/pool-return"
@@ -68,8 +194,15 @@ func c05PoolTypestate(c *Ctx, r *Report, rulePrefix string) {
 					return true
 				}
 				call, ok := ast.Unparen(as.Rhs[0]).(*ast.CallExpr)
-				if !ok || !isPoolCall(info, call, "Get") {
+				if !ok {
 					return true
+				}
+				wrapPool, wrapArg := "", -1
+				if !isPoolCall(info, call, "Get") {
+					wrapPool, wrapArg, _ = poolAcquireWrapper(c, info, call)
+					if wrapArg < 0 {
+						return true
+					}
 				}
 				v := identObj(info, as.Lhs[0])
 				if v == nil {
@@ -86,6 +219,9 @@ func c05PoolTypestate(c *Ctx, r *Report, rulePrefix string) {
 				poolText := ""
 				if se, ok := call.Fun.(*ast.SelectorExpr); ok {
 					poolText = exprStr(se.X)
+				}
+				if wrapArg >= 0 {
+					poolText = wrapPool
 				}
 				// initialisation nodes
 				isInit := func(n ast.Node) bool {
@@ -130,6 +266,10 @@ func c05PoolTypestate(c *Ctx, r *Report, rulePrefix string) {
 					if nd.N != nil && isInit(nd.N) {
 						initNodes = append(initNodes, nd.ID)
 					}
+				}
+				// acquired through a wrapper that binds the context field to the argument passed here
+				if wrapArg >= 0 && wrapArg < len(call.Args) && ctxParam != nil && identObj(info, call.Args[wrapArg]) == ctxParam {
+					initNodes = append(initNodes, getNode)
 				}
 				// uses of v (incl. nested literals): every use must be dominated by an init node
 				okAll := true
